@@ -2,7 +2,7 @@
    packing, width schedule and CLEAR codes; the other codecs by differential). *)
 From Coq Require Import ZArith List Lia Bool.
 Import ListNotations.
-From LX Require Import Model.Rle90 Proofs.Rle90Proofs Model.Lzw Proofs.LzwBitsProofs Proofs.LzwCodesProofs.
+From LX Require Import Generated.Consts Model.Rle90 Proofs.Rle90Proofs Model.Lzw Proofs.LzwBitsProofs Proofs.LzwCodesProofs.
 Local Open Scope Z_scope.
 
 (* For every byte string - any length, any content, runs of any length, the marker byte itself anywhere - the RLE90
@@ -27,9 +27,10 @@ Proof. vm_compute. repeat split; reflexivity. Qed.
    choose, the transcribed decrunch_compress (header check, bit reader with the width schedule and its group alignment, string
    table with the KwKwK case, CLEAR) gives back exactly the bytes that were packed. *)
 Theorem uncompress_compress : forall p clears l, zparams_okb p = true -> bytesb l = true ->
+  Z.of_nat (length l) < C_LIBXMP_DEPACK_LIMIT ->        (* the library's unpack ceiling: longer outputs are refused *)
   uncompress (Lzw.compress p clears l) = Some l.
 Proof.
-  intros p clears l Hp Hl. apply uncompress_compress_from; [|exact Hp|exact Hl].
+  intros p clears l Hp Hl Hlim. apply uncompress_compress_from; [|exact Hp|exact Hl|exact Hlim].
   intros codes Hfit. apply unpack_of_compress_payload; [|exact Hfit].
   unfold zparams_okb in Hp. apply andb_prop in Hp as [H1 H2]. apply Z.leb_le in H1. apply Z.leb_le in H2. lia.
 Qed.
